@@ -509,6 +509,76 @@ def panic_path(p):
     return path
 
 
+def without_class(x, cls, delims):
+    """x (bytes) with every character of class cls replaced by a plain letter (None if not text)."""
+    try:
+        t = x.decode("utf-8")
+    except UnicodeDecodeError:
+        return None
+    for name, d in delims:
+        if name == cls and d:
+            t = t.replace(d, "x")
+    out = []
+    for ch in t:
+        out.append("x" if (ch not in PLAIN and cls in classes(ch, [(n, d) for n, d in delims if len(d) > 1])) else ch)
+    return "".join(out).encode("utf-8")
+
+
+def only_class(x, cls, delims):
+    """x (bytes) keeping only the special characters of class cls."""
+    try:
+        t = x.decode("utf-8")
+    except UnicodeDecodeError:
+        return None
+    multi = [(n, d) for n, d in delims if len(d) > 1]
+    return "".join(ch if (ch in PLAIN or cls in classes(ch, multi)) else "x" for ch in t).encode("utf-8")
+
+
+def necessary_class(ctx, fmt, m, o, delims, union):
+    """Several special strings interact. Delta-debugging step: the classes whose removal from every
+    key and value cures the failure are *necessary*; among them the one to name is the first that also
+    fails in isolation (a single pair whose only special characters are of that class) — the others
+    merely accompany it. If none fails alone it is a genuine interaction, named a+b."""
+    def as_b(k):
+        return k.encode("utf-8") if isinstance(k, str) else k
+    needed = []
+    for cls in [c for c in PRIORITY if c in union]:
+        o2 = {}
+        for i, (k, v) in enumerate(o.items()):
+            k2 = without_class(as_b(k), cls, delims)
+            v2 = without_class(v, cls, delims) if isinstance(v, bytes) else v
+            if k2 is None or v2 is None:
+                break
+            k2 = k2.decode("utf-8")
+            if k2 in o2:
+                k2 += "k%d" % i
+            o2[k2] = v2
+        else:
+            if o2 != o and not failed(evaluate(ctx, fmt, [dict(m, o=enc(o2))])[0]):
+                needed.append(cls)
+    for cls in needed:
+        singles = []
+        for k, v in o.items():
+            if cls in classes(as_b(k), delims):
+                k1 = only_class(as_b(k), cls, delims)
+                if k1 is not None:
+                    singles.append({k1.decode("utf-8"): b"v"})
+            if isinstance(v, bytes) and cls in classes(v, delims):
+                v1 = only_class(v, cls, delims)
+                if v1 is not None:
+                    singles.append({"k": v1})
+        if singles and any(failed(r) for r in evaluate(ctx, fmt, [dict(m, o=enc(x)) for x in singles])):
+            return cls
+    # none fails alone: an interaction. Spaces and double quotes are what the encoders do handle
+    # (they quote on space and escape the double quote), so they are context, not cause.
+    rest = [c for c in needed if c not in ("space", "dquote")]
+    if rest:
+        return rest[0]
+    if needed:
+        return "+".join(sorted(needed))
+    return None
+
+
 def report(ctx, fmt, item, outcome):
     if outcome["kind"] == "panic":
         ctx.violation("%s:panic@%s" % (fmt, panic_path(outcome["panic"])),
@@ -552,7 +622,8 @@ def report(ctx, fmt, item, outcome):
                 union |= c
             # several special strings interact: name the most notable class only (the full set is in
             # the witness), so that variants of one defect share a signature
-            primary = next((x for x in PRIORITY if x in union), None) or cls_text(union)
+            primary = necessary_class(ctx, fmt, m, o, delims, union) \
+                or next((x for x in PRIORITY if x in union), None) or cls_text(union)
             sig = "%s:several-contain:%s" % (fmt, primary)
     if "custom_delimiters" in opts and "delimiter" in sig:
         opts.remove("custom_delimiters")     # already said by the character class
@@ -568,7 +639,8 @@ def report(ctx, fmt, item, outcome):
     for k in ("text", "parsed", "error", "panic"):
         if k in final:
             detail[k] = final[k]
-    ctx.violation(sig + suffix, detail, case={"fmt": fmt, "items": [m]})
+    detail["fine_signature"] = sig + suffix
+    ctx.violation(coarse_signature(sig), detail, case={"fmt": fmt, "items": [m]})
 
 
 def shape(fmt, item):
@@ -600,6 +672,16 @@ def rough_class(fmt, item):
         c |= {"k:" + x for x in classes(k, delims)}
         c |= {"v:" + x for x in classes(v, delims)}
     return (fmt, item.get("ws"), item.get("sk"), tuple(sorted(c)))
+
+
+def coarse_signature(sig):
+    """<format>:<character class>: which role (key / value / several pairs) carried the character and
+    which options were needed is part of the witness, not of the signature — the encoders have one
+    quoting rule per format, so one character class is one defect."""
+    parts = sig.split(":")
+    if len(parts) >= 3 and (parts[1].endswith("-contains") or parts[1] == "several-contain"):
+        return "%s:%s" % (parts[0], parts[2])
+    return sig
 
 
 def run_case(ctx, case):
